@@ -43,7 +43,7 @@ var closeFloats = []float64{1.00001, 1.00002, 1.00003, 0.99999, 1, 2.00005, 2.00
 
 func genC05(t *rapid.T) *c05Case {
 	// timestamps built for overlap: out-of-order arrival, ties, interleaving block ranges
-	profiles := []gen.Profile{gen.PInt, gen.PFloat, gen.PLowStr, gen.PHighStr, gen.PMixNumStr, gen.PMixIntFloat, gen.PBool, gen.PNumText}
+	profiles := []gen.Profile{gen.PInt, gen.PFloat, gen.PLowStr, gen.PHighStr, gen.PMixNumStr, gen.PMixIntFloat, gen.PBool, gen.PNumText, gen.PUInt}
 	ds := gen.GenDataset(t, gen.DatasetOpts{MinEvents: 2, MaxEvents: pt.Scale(60, 400), MaxCols: 4, Profiles: profiles, NullPct: 5, NoNested: true})
 	// one dedicated column with values closer than 1e-4
 	if rapid.Bool().Draw(t, "closeCol") {
